@@ -45,6 +45,7 @@ RULE = ("inputs = corpus of 12 valid requests / 12 valid responses, each either 
         "redirects with missing/garbled Location, malformed SSE and JSON bodies, 1xx prefixes, non-ASCII bytes, bare CR/LF), "
         "byte-mutated (flip/set/delete/duplicate/insert/token/eol/line swap), spliced, random bytes, or truncated; x 0..5 cut "
         "points (or byte-by-byte) on a round schedule x optional EOF x sibling before/with/after and accepted first/second. "
+        "Every 20th input is constructed as a control and every 20th as a complete, certainly invalid message (for O3/O4). "
         "Non-trivial = not a control and hio received the hostile bytes; distinct = by role and byte string.")
 ASSUMPTIONS = [
     "plain TCP on 127.0.0.1 only (no TLS); peers never close abortively during a case (socket-level faults are C10's subject)",
